@@ -88,6 +88,31 @@ pub fn run(f: &[&str]) -> String {
                 "SKIP".into()
             }
         }
+        "rf" if f.len() == 2 => {
+            // RawValue::from_string(<utf8 text>) -> ok <hex of get()> <hex of to_string(&raw)> <hex of to_string(&to_value(&raw))>
+            #[cfg(feature = "raw_value")]
+            {
+                let data = match unhex(f[1]) { Some(d) => d, None => return "BADCASE".into() };
+                let s = match String::from_utf8(data) { Ok(s) => s, Err(_) => return "SKIP".into() };
+                match serde_json::value::RawValue::from_string(s) {
+                    Ok(r) => {
+                        let ts = serde_json::to_string(&r).map(|x| hex(x.as_bytes())).unwrap_or_else(|e| format!("ERR:{}", e));
+                        // through to_value the VALUE must be the one the raw text denotes (a Value cannot keep whitespace or spellings)
+                        let tv = match (serde_json::to_value(&r), serde_json::from_str::<Value>(r.get())) {
+                            (Ok(a), Ok(b)) => if show_value(&a) == show_value(&b) { "same".to_string() } else { format!("DIFF:{}:{}", show_value(&a), show_value(&b)) },
+                            (Err(_), Err(_)) => "same".to_string(),   // text the scanner accepts but full parsing rejects (lone surrogate, range, depth)
+                            (a, b) => format!("ERR:{:?}:{:?}", a.map(|x| show_value(&x)).map_err(|e| e.to_string()), b.map(|x| show_value(&x)).map_err(|e| e.to_string())),
+                        };
+                        format!("ok {} {} {}", hex(r.get().as_bytes()), ts, tv)
+                    }
+                    Err(e) => show_err(&e),
+                }
+            }
+            #[cfg(not(feature = "raw_value"))]
+            {
+                "SKIP".into()
+            }
+        }
         "io" if f.len() == 6 => {
             // io <cfg> <target> <k> <kind> <hex>
             let data = match unhex(f[5]) { Some(d) => d, None => return "BADCASE".into() };
